@@ -141,6 +141,23 @@ Definition expected_lines (a : action) (n : string) (x : answer) : list string :
     | _ => [target_name n ++ ": " ++ ok_word a]
     end.
 
+(* the XML-RPC call each name must lead to (method names of the supervisor namespace) *)
+Definition spec_method (a : action) (kind : Z) : string :=   (* 0 single, 1 group, 2 all *)
+  match a, kind with
+  | Start, 0 => "startProcess" | Start, 1 => "startProcessGroup" | Start, _ => "startAllProcesses"
+  | Stop, 0 => "stopProcess" | Stop, 1 => "stopProcessGroup" | Stop, _ => "stopAllProcesses"
+  | Signal, 0 => "signalProcess" | Signal, 1 => "signalProcessGroup" | Signal, _ => "signalAllProcesses"
+  | Clear, 0 => "clearProcessLogs" | Clear, 1 => "" | Clear, _ => "clearAllProcessLogs"
+  end.
+Definition spec_extra (a : action) (sig : string) : list arg :=
+  match a with Signal => [AS sig] | _ => [] end.
+Definition spec_call (a : action) (sig n : string) : call :=
+  if is_group_target a n
+  then (spec_method a 1, AS (fst (split_namespec n)) :: spec_extra a sig)
+  else (spec_method a 0, AS n :: spec_extra a sig).
+Definition spec_calls (a : action) (sig : string) (names : list string) : list call :=
+  ("getVersion", []) :: map (spec_call a sig) names.
+
 (* how many processes (or unknown groups) the answer speaks about *)
 Definition target_count (a : action) (n : string) (x : answer) : nat :=
   if is_group_target a n then
@@ -215,22 +232,43 @@ Definition mon_exit_value (a : action) (names : list string) (answers : list ans
   | _, _ => true
   end.
 
-Definition mon_case := (action * list string * list answer * list line * Z)%type.
-Definition mkmon (a : action) (n : list string) (x : list answer) (l : list line) (z : Z) : mon_case :=
-  (a, n, x, l, z).
+Definition mon_case := (action * list string * list answer * list line * Z * string * list call)%type.
+Definition mkmon (a : action) (n : list string) (x : list answer) (l : list line) (z : Z)
+           (sig : string) (cs : list call) : mon_case := (a, n, x, l, z, sig, cs).
 
 (* 0 = accepted; 1 = exit status wrong; 5 = wrong non-zero status for a single target;
-   2 = silent failure; 3 = lines wrong although the server answered for every target *)
-Definition monitor_verdict (c : action * list string * list answer * list line * Z) : Z :=
-  let '(a, names, answers, ls, status) := c in
+   2 = silent failure; 3 = lines wrong although the server answered for every target;
+   6 = the calls made are not one per name as the namespec rules select *)
+Definition monitor_verdict (c : mon_case) : Z :=
+  let '(a, names, answers, ls, status, sig, cs) := c in
   if negb (mon_exit a names answers status) then 1
   else if negb (mon_exit_value a names answers status) then 5
   else if negb (mon_never_silent a names answers ls status) then 2
-  else if all_answered a names answers then (if mon_lines a names answers ls then 0 else 3)
+  else if all_answered a names answers then
+    (if negb (mon_lines a names answers ls) then 3
+     else if negb (list_eqb' call_eqb cs (spec_calls a sig names)) then 6 else 0)
   else 0.
 
-Definition monitor_ok (c : action * list string * list answer * list line * Z) : bool :=
+Definition monitor_ok (c : mon_case) : bool :=
   monitor_verdict c =? 0.
+
+(* restart names = stop names, then start names (each after its own version check):
+   judged with the stop answers and the start answers *)
+Definition restart_mon_case :=
+  (list string * list answer * list answer * list line * Z * list call)%type.
+Definition mkrestart (n : list string) (x y : list answer) (l : list line) (z : Z) (c : list call)
+  : restart_mon_case := (n, x, y, l, z, c).
+Definition restart_monitor_ok (c : restart_mon_case) : bool :=
+  let '(names, xs, ys, ls, status, cs) := c in
+  if all_answered Stop names xs && all_answered Start names ys then
+    Bool.eqb (status =? 0) (all_success Stop names xs && all_success Start names ys) &&
+    match text_lines ls with
+    | Some ts => str_list_eqb ts (all_expected Stop names xs ++ all_expected Start names ys)%list
+    | None => false
+    end &&
+    list_eqb' call_eqb cs
+      (("getVersion", []) :: spec_calls Stop "" names ++ spec_calls Start "" names)%list
+  else true.
 
 (* ------------------------------------------------------------------- status *)
 (* specification of `status names` against the process table the server returned *)
@@ -256,6 +294,31 @@ Definition status_mon_case := (list string * list pinfo * Z)%type.
 Definition mkstat (n : list string) (i : list pinfo) (z : Z) : status_mon_case := (n, i, z).
 Definition status_monitor_ok (c : status_mon_case) : bool :=
   let '(names, infos, status) := c in status =? spec_status_exit infos names.
+
+(* the lines of `status names`: first one ERROR line per name that matched nothing, naming it,
+   then one line per shown process, in order, starting with its namespec and carrying the
+   state name and description the server gave for THAT process *)
+Definition unknown_line_ok (n : string) (t : string) : bool :=
+  prefix (fst (split_namespec n)) t && contains "ERROR (no such" t.
+Definition info_line_ok (i : pinfo) (t : string) : bool :=
+  prefix (make_namespec (i_group i) (i_name i) ++ " ") t && contains (i_statename i) t && contains (i_desc i) t.
+Fixpoint zip_ok {A} (f : A -> string -> bool) (l : list A) (ts : list string) : bool :=
+  match l, ts with
+  | [], [] => true
+  | x :: l', t :: ts' => f x t && zip_ok f l' ts'
+  | _, _ => false
+  end.
+Definition status_lines_case := (list string * list pinfo * list line)%type.
+Definition mkstatl (n : list string) (i : list pinfo) (l : list line) : status_lines_case := (n, i, l).
+Definition status_lines_ok (c : status_lines_case) : bool :=
+  let '(names, infos, ls) := c in
+  match text_lines ls with
+  | None => false
+  | Some ts =>
+    let unknown := if all_form names then [] else filter (unknown_name infos) names in
+    let k := List.length unknown in
+    zip_ok unknown_line_ok unknown (firstn k ts) && zip_ok info_line_ok (shown_infos infos names) (skipn k ts)
+  end.
 
 (* --------------------------------------------------------------- tail / maintail *)
 (* `tail [-N|-f] name [stdout|stderr]` and `maintail [-N|-f]`, given by their meaning
